@@ -225,7 +225,7 @@ fn run_adf(seed: u64, budget: usize) -> ! {
         for (what, got) in st_variants { if sorted(got.clone()) != stable || got.len() != stable.len() { fail(&format!("C03 {}", what), format!("{:?}", got), format!("{:?}", stable)); } }
         // C05 (n >= 1: the search does not terminate on the empty ADF, which cannot be written in the input format anyway).
         // Termination is part of the property and is NOT proved: every search runs on a fresh object in its own thread and
-        // has 10 s (these ADFs have <= 4 statements; the unchanged code needs milliseconds)
+        // has 20 s (these ADFs have <= 4 statements; the unchanged code needs milliseconds)
         if !c05_hung {
             for (hn, hi) in [("Simple", 0usize), ("MinModMinPathsMaxVarImp", 1), ("MinModMaxVarImpMinPaths", 2), ("Rand", 3)] {
                 let txt = text.clone();
@@ -241,12 +241,12 @@ fn run_adf(seed: u64, budget: usize) -> ! {
                     let tw: Vec<V3> = r.iter().map(|v| tvs(&v)).collect();
                     let _ = tx.send((st, tw));
                 });
-                match rx.recv_timeout(std::time::Duration::from_secs(10)) {
+                match rx.recv_timeout(std::time::Duration::from_secs(20)) {
                     Ok((got, got2)) => {
                         if sorted(got.clone()) != stable || got.len() != stable.len() { fail(&format!("C05 stable_nogood({})", hn), format!("{:?}", got), format!("{:?}", stable)); }
                         if sorted(got2.clone()) != twoval || got2.len() != twoval.len() { fail(&format!("C05 two_val_nogood_channel({})", hn), format!("{:?}", got2), format!("{:?}", twoval)); }
                     }
-                    Err(_) => { fail(&format!("C05 stable_nogood / two_val_nogood_channel({}) did not return within 10 s (no termination, or the sender was not dropped)", hn), "no answer".into(), format!("{:?} / {:?}", stable, twoval)); c05_hung = true; break; }
+                    Err(_) => { fail(&format!("C05 stable_nogood / two_val_nogood_channel({}) did not return within 20 s (no termination, or the sender was not dropped)", hn), "no answer".into(), format!("{:?} / {:?}", stable, twoval)); c05_hung = true; break; }
                 }
             }
         }
